@@ -400,18 +400,18 @@ def _callee(ix, fi, call):
     return None, False
 
 
-def inline_helpers(ix, fi, depth: int = 2, skip=()):
+def inline_helpers(ix, fi, depth: int = 2, skip=(), tail: bool = True):
     """A fresh FunctionDef for `fi` in which expression statements that call a private, value-less helper of the same
     class/module (`self._h(a, b)` / `_h(a, b)`, name starting with '_', no `return <value>`) are replaced by the
     helper's body with parameters substituted.  Parents are set on the result so `resolve`/`facts_at` work on it.
     Used so that an extracted helper does not hide the statements a rule is looking for."""
     fn = _set_parents(clone(fi.node) if False else ast.parse(ast.unparse(fi.node)).body[0])
 
-    def expandable(call):
+    def expandable(call, allow_value=False):
         g, is_method = _callee(ix, fi, call)
         if g is None or not g.name.startswith("_") or g.name.startswith("__") or not isinstance(g.node, ast.FunctionDef) or g.name in skip:
             return None
-        if any(isinstance(r, ast.Return) and r.value is not None and not (isinstance(r.value, ast.Constant) and r.value.value is None) for r in walk_local(g.node)):
+        if not allow_value and any(isinstance(r, ast.Return) and r.value is not None and not (isinstance(r.value, ast.Constant) and r.value.value is None) for r in walk_local(g.node)):
             return None
         ps = [a.arg for a in g.node.args.args]
         if is_method and ps and ps[0] in ("self", "cls"):
@@ -462,6 +462,17 @@ def inline_helpers(ix, fi, depth: int = 2, skip=()):
                     continue
                 new = []
                 for st in lst:
+                    if isinstance(st, ast.Return) and isinstance(st.value, ast.Call) and tail:
+                        rep = expandable(st.value, allow_value=True)       # `return self._helper(...)`: a tail call
+                        if rep is not None:
+                            for r in rep:
+                                ast.copy_location(r, st)
+                                for x in ast.walk(r):
+                                    if hasattr(x, "lineno"):
+                                        x.lineno = st.lineno
+                            new.extend(rep)
+                            changed = True
+                            continue
                     if isinstance(st, ast.Expr) and isinstance(st.value, ast.Call):
                         rep = expandable(st.value)
                         if rep is not None:
@@ -494,3 +505,63 @@ def unalias(e: ast.AST, fn: ast.AST, depth: int = 4) -> ast.AST:
             break
         e, depth = v, depth - 1
     return e
+
+
+# ---------------------------------------------------------------- filtered copies of mappings
+def entry_facts(fn: ast.AST, expr: ast.AST, defs=None):
+    """For an expression that denotes a mapping built from another mapping, either by a dict comprehension
+    `{k: v for k, v in SRC.items() if COND}` or by a loop `for k, v in SRC.items(): if COND: out[k] = v` filling a name
+    that starts as `{}`/`dict()`: the facts known about every stored entry, with the key and value variables renamed
+    to K and V: a set of (atom text, truth), plus the source expression text.  None if the shape is not recognised."""
+    def rename(node, k, v):
+        class R(ast.NodeTransformer):
+            def visit_Name(self, n):
+                if n.id == k:
+                    return ast.Name(id="K", ctx=n.ctx)
+                if n.id == v:
+                    return ast.Name(id="V", ctx=n.ctx)
+                return n
+        return R().visit(clone(node))
+
+    e = expr
+    if isinstance(e, ast.Name):
+        # follow a single dominating definition, or find the fill loop
+        tgt = e.id
+        fills = [a for a in ast.walk(fn) if isinstance(a, ast.Assign) and isinstance(a.targets[0], ast.Subscript) and isinstance(a.targets[0].value, ast.Name) and a.targets[0].value.id == tgt]
+        inits = [a for a in ast.walk(fn) if isinstance(a, (ast.Assign, ast.AnnAssign)) and isinstance((a.targets[0] if isinstance(a, ast.Assign) else a.target), ast.Name)
+                 and (a.targets[0] if isinstance(a, ast.Assign) else a.target).id == tgt and a.value is not None]
+        if len(inits) == 1 and not fills:
+            return entry_facts(fn, inits[0].value, defs)
+        if fills and all(norm(i.value) in ("{}", "dict()") for i in inits):
+            out, src = None, None
+            for a in fills:
+                loop = getattr(a, "_parent", None)
+                while loop is not None and not isinstance(loop, ast.For):
+                    loop = getattr(loop, "_parent", None)
+                if loop is None or not (isinstance(loop.target, ast.Tuple) and len(loop.target.elts) == 2):
+                    return None
+                k, v = norm(loop.target.elts[0]), norm(loop.target.elts[1])
+                if norm(a.targets[0].slice) != k or norm(a.value) != v:
+                    return None
+                facts = set()
+                for at, truth in facts_at(a, loop):
+                    facts.add((norm(rename(at, k, v)), truth))
+                out = facts if out is None else (out & facts)
+                src = norm(loop.iter)
+            return out, src
+        return None
+    if isinstance(e, ast.Call) and len(e.args) == 1 and not e.keywords and isinstance(e.func, (ast.Name, ast.Attribute)) and norm(e.func) in ("dict", "self.UnitsContainer", "UnitsContainer"):
+        return entry_facts(fn, e.args[0], defs)
+    if isinstance(e, ast.DictComp) and len(e.generators) == 1:
+        g = e.generators[0]
+        if not (isinstance(g.target, ast.Tuple) and len(g.target.elts) == 2):
+            return None
+        k, v = norm(g.target.elts[0]), norm(g.target.elts[1])
+        if norm(e.key) != k or norm(e.value) != v:
+            return None
+        facts = set()
+        for i in g.ifs:
+            for at, truth in conjuncts(i, "t"):
+                facts.add((norm(rename(at, k, v)), truth))
+        return facts, norm(g.iter)
+    return None
